@@ -87,8 +87,10 @@ def execute(prop, workload, seed=None, replay=None, params=None, keep_trace=True
     old = signal.signal(signal.SIGALRM, _alarm)
     # progress bars of the code under test go to a sink (fd 2 stays for faulthandler)
     old_stderr = sys.stderr
+    old_stdout = sys.stdout
     if os.environ.get("XSIM_SHOW_STDERR") != "1":
         sys.stderr = _DEVNULL
+        sys.stdout = _DEVNULL
     signal.alarm(RUN_WALL)
     t0 = time.perf_counter()
     try:
@@ -113,6 +115,7 @@ def execute(prop, workload, seed=None, replay=None, params=None, keep_trace=True
     finally:
         signal.signal(signal.SIGALRM, old)
         sys.stderr = old_stderr
+        sys.stdout = old_stdout
         for w in ctx.worlds:
             w.aborting = True
             if w.sched is not None:
